@@ -331,7 +331,7 @@ def _run_variant(args):
         repo = Repo(root, overlay=overlay)
         ctx = report.Context(pid, repo, "thorough")
         mod = importlib.import_module(f"sa.props.{pid}")
-        mod.check(ctx)
+        report.run_check(mod, ctx)
     except AnalysisError as e:
         if expect == NV:
             return name, expect, "silent", "analysis-error (accepted for whole-method rewrites): " + str(e)[:120]
